@@ -132,7 +132,7 @@ IAttachFail(s) ==
   /\ UNCHANGED <<known, hasBase, nwatch, cont>>
 
 INext ==
-  \/ \E k \in Keys : IChange(Ev("put", k)) \/ (k \in etcd /\ IChange(Ev("del", k)))
+  \/ \E k \in Keys : (IdFree(etcd, k) /\ IChange(Ev("put", k))) \/ (k \in etcd /\ IChange(Ev("del", k)))
   \/ IDisconnect \/ IResume
   \/ \E m \in Mids : IReload(m)
   \/ \E s \in Subs : IAttach(s) \/ IAttachFail(s)
